@@ -1,8 +1,11 @@
 package main
 
 import (
+	"os"
+	"encoding/binary"
 	"encoding/json"
 	"fmt"
+	"sort"
 	"strings"
 	"sync"
 	"time"
@@ -33,6 +36,10 @@ type idsDriver struct {
 	muts   int
 	cleaved []uint64 // bodies cleaved off (can be merged back)
 	dead   bool
+	// label bookkeeping for voxel-level steps (ingest of higher labels, supervoxel splits)
+	svNow      []uint64 // supervoxel stored in every region (nil = unknown after a torn voxel operation)
+	maxPresent uint64   // largest label the driver knows to be present
+	nHigh      int
 }
 
 func (d *idsDriver) ev(e idEvent) { d.events = append(d.events, e) }
@@ -45,13 +52,18 @@ func (d *idsDriver) start(cfg node.Config) {
 	json.Unmarshal(r.Bytes(), &o)
 	d.root, d.cur = o.Root, o.Root
 	d.recordVersions()
-	g := lmm.NewGeom(d.c.Seed, false)
+	g := lmm.SafeGeom(d.c.Seed, false) // (NewGeom panics for a few seeds, e.g. 3 and 6)
 	d.in = &lmm.Inst{N: d.n, G: g, Name: "seg", Root: o.Root}
 	must(d.in.Create(nil), "create labelmap")
 	d.recordInstance("seg")
 	d.sv = make([]uint64, g.R)
 	for i := range d.sv {
-		d.sv[i] = uint64(10 + i%5) // five supervoxels, each spanning several regions
+		// five supervoxels: 11..14 hold one region each (they are cleaved off and merged back by
+		// their ids), 10 holds all the others (so that it can be split again and again)
+		d.sv[i] = 10
+		if i >= 1 && i <= 4 {
+			d.sv[i] = uint64(10 + i)
+		}
 	}
 	var blocks []int
 	for b := range g.Blocks {
@@ -60,6 +72,8 @@ func (d *idsDriver) start(cfg node.Config) {
 	must(d.in.Ingest(d.cur, d.sv, blocks, false), "ingest")
 	must(d.n.Idle(), "idle")
 	d.ev(idEvent{"ev": "ingest", "inst": "seg", "max": 14})
+	d.svNow = append([]uint64(nil), d.sv...)
+	d.maxPresent = 14
 	// one body holding all supervoxels, so that cleaves are always possible
 	d.post("merge", "/merge", []byte(`[10,11,12,13,14]`))
 }
@@ -105,6 +119,9 @@ func (d *idsDriver) post(kind, path string, body []byte) bool {
 	}
 	must(err, kind)
 	if r.Status != 200 {
+		if os.Getenv("VCHECK_DEBUG") == "ids" {
+			fmt.Printf("DEBUG %s %s -> %d %.200s\n", kind, path, r.Status, r.Bytes())
+		}
 		return false
 	}
 	var o struct {
@@ -123,6 +140,7 @@ func (d *idsDriver) post(kind, path string, body []byte) bool {
 	if o.CleavedLabel != 0 {
 		d.ev(idEvent{"ev": "label", "inst": "seg", "id": o.CleavedLabel, "by": "cleave"})
 		d.cleaved = append(d.cleaved, o.CleavedLabel)
+		d.noteLabel(o.CleavedLabel)
 	}
 	if o.SplitSupervoxel != 0 {
 		d.ev(idEvent{"ev": "label", "inst": "seg", "id": o.SplitSupervoxel, "by": "split"})
@@ -132,6 +150,7 @@ func (d *idsDriver) post(kind, path string, body []byte) bool {
 		var n int
 		fmt.Sscanf(path, "/nextlabel/%d", &n)
 		d.ev(idEvent{"ev": "range", "inst": "seg", "start": o.Start, "end": o.End, "n": n})
+		d.noteLabel(o.End)
 	}
 	return true
 }
@@ -139,6 +158,12 @@ func (d *idsDriver) post(kind, path string, body []byte) bool {
 // step performs one allocating operation.
 func (d *idsDriver) step(i int) {
 	switch {
+	case i%23 == 11:
+		// an ingest of labels above everything present, its background work awaited: later
+		// allocations must exceed it
+		d.ingestHigher(true)
+	case i%29 == 13:
+		d.splitSV()
 	case i%9 == 4:
 		d.post("nextlabel", fmt.Sprintf("/nextlabel/%d", 1+i%4), nil)
 	case i%17 == 8:
@@ -186,6 +211,131 @@ func (d *idsDriver) step(i int) {
 			// the supervoxel may currently be outside body 10 (cleaved and not yet merged back): try the base one
 			d.post("cleave", "/cleave/10", []byte("[14]"))
 		}
+	}
+}
+
+// noteLabel keeps the driver's idea of the largest label present up to date.
+func (d *idsDriver) noteLabel(l uint64) {
+	if l > d.maxPresent {
+		d.maxPresent = l
+	}
+}
+
+// ingestHigher overwrites the single-voxel region 1 with a label well above everything present
+// (a mutating voxel write = an ingest of a higher label).  acked reports whether the request was
+// acknowledged; the event is recorded only then.
+func (d *idsDriver) ingestHigher(idle bool) bool {
+	if d.svNow == nil {
+		return false
+	}
+	g := d.in.G
+	d.nHigh++
+	h := d.maxPresent + 40 + uint64(d.nHigh)
+	sv := append([]uint64(nil), d.svNow...)
+	sv[0] = h
+	var blocks []int
+	for b := range g.Blocks {
+		if g.NVox[0][b] > 0 {
+			blocks = append(blocks, b+1)
+		}
+	}
+	err := d.in.Ingest(d.cur, sv, blocks, true)
+	if err == node.ErrDead || !d.n.Alive() {
+		d.dead = true
+		return false
+	}
+	if err != nil {
+		return false
+	}
+	d.svNow = sv
+	d.ev(idEvent{"ev": "ingest", "inst": "seg", "max": h})
+	d.noteLabel(h)
+	if idle {
+		if err := d.n.Idle(); err != nil {
+			d.dead = !d.n.Alive()
+		}
+	}
+	return true
+}
+
+// splitSV splits one region off a supervoxel that still has at least two regions (labels and the
+// mutation id of the answer are recorded by post).
+func (d *idsDriver) splitSV() bool {
+	if d.svNow == nil {
+		return false
+	}
+	regs := map[uint64][]int{}
+	for r, s := range d.svNow {
+		if s != 0 {
+			regs[s] = append(regs[s], r+1)
+		}
+	}
+	var cand []uint64
+	for s, rs := range regs {
+		if len(rs) >= 2 {
+			cand = append(cand, s)
+		}
+	}
+	if len(cand) == 0 {
+		return false
+	}
+	sort.Slice(cand, func(i, j int) bool { return cand[i] < cand[j] })
+	s := cand[0]
+	cut := regs[s][len(regs[s])-1]
+	before := len(d.events)
+	ok := d.post("split-supervoxel", fmt.Sprintf("/split-supervoxel/%d", s), lmm.EncodeRLEs(d.in.G.RegionRLEs(map[int]bool{cut: true})))
+	if !ok {
+		if d.dead {
+			d.svNow = nil // the voxels may be half rewritten
+		}
+		return false
+	}
+	var split, remain uint64
+	for _, e := range d.events[before:] {
+		if e["by"] == "split" {
+			split = e["id"].(uint64)
+		}
+		if e["by"] == "remain" {
+			remain = e["id"].(uint64)
+		}
+	}
+	for r := range d.svNow {
+		if d.svNow[r] == s {
+			if r+1 == cut {
+				d.svNow[r] = split
+			} else {
+				d.svNow[r] = remain
+			}
+		}
+	}
+	d.noteLabel(split)
+	d.noteLabel(remain)
+	return true
+}
+
+// observePresent reads the stored voxels and records the largest label present (after a crash the
+// driver cannot know which writes of the interrupted request reached the store).
+func (d *idsDriver) observePresent() {
+	g := d.in.G
+	url := fmt.Sprintf("/api/node/%s/seg/raw/0_1_2/%d_%d_%d/%d_%d_%d?supervoxels=true", d.cur, g.Size[0], g.Size[1], g.Size[2], g.Min[0], g.Min[1], g.Min[2])
+	r, err := d.n.HTTP("GET", url, nil)
+	must(err, "read volume")
+	if r.Status != 200 {
+		infra("GET raw after recovery: %d %.200s", r.Status, r.Bytes())
+	}
+	vol := r.Bytes()
+	var mx uint64
+	for i := 0; i+8 <= len(vol); i += 8 {
+		if l := binary.LittleEndian.Uint64(vol[i:]); l > mx {
+			mx = l
+		}
+	}
+	d.ev(idEvent{"ev": "present", "inst": "seg", "max": mx})
+	d.noteLabel(mx)
+	if regs, bad := g.VolumeToRegions(vol); bad == "" {
+		d.svNow = regs
+	} else {
+		d.svNow = nil
 	}
 }
 
@@ -293,6 +443,9 @@ func checkC12(c *Ctx) int {
 	base, _ := ref.n.Count()
 	for i := 0; ref.muts < 120; i++ {
 		ref.step(i)
+		if i > 3000 {
+			infra("identifier history stalls at %d mutation ids after %d steps", ref.muts, i)
+		}
 	}
 	raw, _ := ref.n.WTrace(false)
 	c.DropNode(ref.n)
@@ -325,7 +478,7 @@ func checkC12(c *Ctx) int {
 		if cps[i].n > cnt {
 			d.n.Arm(cps[i].n-cnt, cps[i].after)
 		}
-		for k := 0; d.muts < 125 && !d.dead; k++ {
+		for k := 0; d.muts < 125 && !d.dead && k < 3000; k++ {
 			d.step(k)
 		}
 		if d.dead {
@@ -337,7 +490,8 @@ func checkC12(c *Ctx) int {
 			}
 			d.dead = false
 			d.cleaved = nil
-			for k := 0; k < 40; k++ {
+			d.observePresent()
+			for k := 0; k < 40 && !d.dead; k++ {
 				d.step(k)
 			}
 		}
@@ -345,6 +499,98 @@ func checkC12(c *Ctx) int {
 		results = append(results, result{fmt.Sprintf("crash-w%d-%v", cps[i].n, cps[i].after), d.events})
 		mu.Unlock()
 	})
+	// (b2) label counters: a short label-heavy history (ingest of a higher label, cleave,
+	// split-supervoxel, nextlabel ...) with a process exit before / after every write of the
+	// max-label / repo-max-label / next-label keys and of the voxel block of an ingest - this
+	// places the crash between an acknowledged (or half-done) ingest of higher labels and the
+	// persistence of the counters, and between persistMaxLabel and persistMaxRepoLabel - then
+	// recovery, a read of the labels actually present, and further allocations
+	labelSteps := func(d *idsDriver, from, to int) {
+		for k := from; k < to && !d.dead; k++ {
+			switch k % 7 {
+			case 0, 4:
+				d.ingestHigher(k%2 == 0) // (every second one is followed by an allocation without waiting for idle)
+			case 1, 5:
+				if !d.post("cleave", "/cleave/10", []byte(fmt.Sprintf("[%d]", 11+k%4))) && !d.dead {
+					d.post("cleave", "/cleave/10", []byte("[14]"))
+				}
+			case 2:
+				d.splitSV()
+			case 3:
+				d.post("nextlabel", fmt.Sprintf("/nextlabel/%d", 1+k%3), nil)
+			case 6:
+				if len(d.cleaved) > 0 {
+					b := d.cleaved[len(d.cleaved)-1]
+					d.cleaved = d.cleaved[:len(d.cleaved)-1]
+					d.post("merge", "/merge", []byte(fmt.Sprintf("[10,%d]", b)))
+				}
+			}
+		}
+	}
+	nLabelSteps := c.pick(14, 28)
+	lref := &idsDriver{c: c}
+	lref.start(node.Config{})
+	lref.n.WTrace(true)
+	lbase, _ := lref.n.Count()
+	labelSteps(lref, 0, nLabelSteps)
+	must(lref.n.Idle(), "idle")
+	lraw, _ := lref.n.WTrace(false)
+	c.DropNode(lref.n)
+	mu.Lock()
+	results = append(results, result{"label-history-no-fault", lref.events})
+	mu.Unlock()
+	var lw []struct {
+		N   uint64 `json:"n"`
+		TKC int    `json:"tkc"`
+	}
+	json.Unmarshal(lraw, &lw)
+	var lcps []cp
+	lkinds := map[int]int{}
+	for _, w := range lw {
+		if w.N <= lbase {
+			continue
+		}
+		switch w.TKC {
+		case 237, 238, 239, 186: // per-version max label, repo-wide max label, next label, voxel block
+			lkinds[w.TKC]++
+			if c.thorough() || (w.N+uint64(c.Seed))%2 == 0 || w.TKC == 186 {
+				lcps = append(lcps, cp{w.N, false}, cp{w.N, true})
+			}
+		}
+	}
+	parallel(len(lcps), 10, func(_, i int) {
+		d := &idsDriver{c: c}
+		d.start(node.Config{})
+		defer func() { c.DropNode(d.n) }()
+		cnt, _ := d.n.Count()
+		if lcps[i].n > cnt {
+			d.n.Arm(lcps[i].n-cnt, lcps[i].after)
+		}
+		labelSteps(d, 0, nLabelSteps)
+		if !d.dead {
+			if err := d.n.Idle(); err != nil && !d.n.Alive() {
+				d.dead = true
+			}
+		}
+		if d.dead || !d.n.Alive() {
+			d.n.WaitExit(10 * time.Second)
+			d.ev(idEvent{"ev": "crash", "at_write": lcps[i].n, "after": lcps[i].after})
+			if err := d.n.Restart(false); err != nil {
+				run.Violation("c12", map[string]interface{}{"kind": "startup-failed-after-crash", "crash_at_write": lcps[i].n, "error": err.Error()})
+				return
+			}
+			d.dead = false
+			d.cleaved = nil
+			d.observePresent()
+			labelSteps(d, 1, 9)
+		}
+		mu.Lock()
+		results = append(results, result{fmt.Sprintf("label-crash-w%d-%v", lcps[i].n, lcps[i].after), d.events})
+		mu.Unlock()
+	})
+	run.Set("label_counter_crash_points", len(lcps))
+	run.Set("label_counter_writes_in_history", lkinds)
+
 	// validate all traces in one TLC run (concatenated with reset events), then individually on rejection
 	var all []idEvent
 	nEvents := 0
@@ -387,11 +633,11 @@ func checkC12(c *Ctx) int {
 	}
 	run.Set("traces_validated_against_impl", len(results))
 	run.Set("identifier_events", nEvents)
-	run.Set("crash_points", len(cps))
-	run.Set("rule", "trace = every identifier handed out by the real server (MutationID of merge/cleave responses, CleavedLabel, nextlabel ranges, version ids and instance ids), in issue order, over a history with process restarts placed at 98..102 and 199..201 issued mutation ids (stride 100) and, in the crash traces, a process exit injected immediately before/after each persistence write of the counters (MUT, IDS keys; sampled data writes incl. the max-label keys) followed by recovery and further allocation; each trace must be a behaviour of IdsTrace.tla (unique, strictly increasing, fresh w.r.t. labels present); DvidPersist.tla's Inv_C12_CountersAhead is model-checked with a crash anywhere. Label freshness during proofreading is additionally checked on every transition of C08's replay")
+	run.Set("crash_points", len(cps)+len(lcps))
+	run.Set("rule", "trace = every identifier handed out by the real server (MutationID of merge/cleave/split-supervoxel responses, CleavedLabel, SplitSupervoxel/RemainSupervoxel, nextlabel ranges, version ids and instance ids) and every ingest of labels above everything present (mutating voxel write), in issue order, over a history with process restarts placed at 98..102 and 199..201 issued mutation ids (stride 100) and, in the crash traces, a process exit injected immediately before/after each persistence write of the counters (MUT, IDS keys; sampled data writes) followed by recovery and further allocation; in the label-counter crash traces a process exit before/after every write of the per-version max-label, repo-wide max-label and next-label keys and of the voxel block of an ingest (so between an acknowledged ingest and the persistence of its labels, and between persistMaxLabel and persistMaxRepoLabel), after which the driver reads the stored voxels, records the largest label actually present and allocates again (some allocations follow an acknowledged ingest without waiting for idle); each trace must be a behaviour of IdsTrace.tla (unique, strictly increasing, fresh w.r.t. labels present); DvidPersist.tla's Inv_C12_CountersAhead is model-checked with a crash anywhere. Label freshness during proofreading is additionally checked on every transition of C08's replay")
 	run.Assume = []string{"concurrent allocation is covered by C11's schedules", "repo ids are not observable through the API (covered by the model and the write-sequence conformance)"}
-	fmt.Printf("C12: tlc %d states; %d traces (%d identifier events, %d crash points) validated against IdsTrace.tla in %.1fs; violations=%d\n",
-		pm.States, len(results), nEvents, len(cps), since(t0), run.Violations())
+	fmt.Printf("C12: tlc %d states; %d traces (%d identifier events, %d + %d crash points) validated against IdsTrace.tla in %.1fs; violations=%d\n",
+		pm.States, len(results), nEvents, len(cps), len(lcps), since(t0), run.Violations())
 	return run.Finish()
 }
 
